@@ -71,6 +71,33 @@ example : playerView (startPlayer exampleExt 44100 0 (load exampleExt (createCon
   · decide
   · decide
 
+/-- **C06, earlier player runs on the same loaded module.**  Playing (frames, position / volume / mute /
+event-injection calls) writes only members outside `B` — the player-run state that `xmp_end_player`,
+`libxmp_mixer_on` and `xmp_start_player` rewrite — so a context `P` that has been played and a context `L`
+that has not, both in any state ≥ LOADED, agree on `B`; starting the player on either gives the same view.
+(Module-wide state hidden behind `m.extra` is outside the model: the FAR tempo/vibrato extras leaked here
+until `libxmp_reset_module_extras` was added, signature `reset:far_module_extras`; the harness compares them.) -/
+theorem C06_restart_independent (X : Ext) (rate format : Int) (L P : Ctx)
+    (hB : AgreeOn B L P) (hp : PartialAgree L P)
+    (hlive : L .m_xxo_info_time (startOrd L) ≠ -1) (hspeed : L .m_xxo_info_speed (startOrd L) ≠ 0) :
+    playerView (startPlayer X rate format L) = playerView (startPlayer X rate format P) :=
+  restart_view_agree X rate format hB hp hlive hspeed
+
+/-- a context that played for a while: position, volumes, mutes, a pending injected event, flow state -/
+def played (s : Ctx) : Ctx
+  | .p_ord => cst 2 | .p_row => cst 17 | .p_frame => cst 3 | .p_master_vol => cst 30
+  | .p_channel_mute => cst 1 | .p_inject_event_flag => cst 1 | .p_inject_event_note => cst 60
+  | .p_flow_jump => cst 5 | .p_loop_count => cst 2 | .s_mix => cst (-40) | .s_ticksize => cst 882
+  | f => s f
+
+example : playerView (startPlayer exampleExt 44100 0 (load exampleExt dirty))
+    = playerView (startPlayer exampleExt 44100 0 (played (startPlayer exampleExt 22050 4 (load exampleExt dirty)))) := by
+  apply C06_restart_independent
+  · intro f hf; cases f <;> first | rfl | exact absurd hf (by decide)
+  · intro f i hf _; cases f <;> first | rfl | exact absurd hf (by decide)
+  · decide
+  · decide
+
 /-- members `xmp_get_frame_info` reads (legal from state LOADED on) -/
 def InfoField : Field → Bool
   | .p_pos | .m_mod_len | .m_mod_xxo | .m_mod_pat | .m_mod_xxp | .m_mod_xxt | .m_mod_chn | .p_row | .p_frame | .p_speed | .p_bpm
